@@ -116,7 +116,10 @@ def _child(case: dict[str, Any]) -> dict[str, Any]:
                         asserts.append(cst.Module(body=[node]).code.strip())
                 entries.append([code, asserts])
             snapshot.append(entries)
-        gen._minimize(suite, s.algorithm)
+        try:  # generator._run wraps _minimize in exactly this try/except
+            gen._minimize(suite, s.algorithm)
+        except Exception:  # noqa: BLE001
+            pass
         s.subject_properties.instrumentation_tracer.disable()
         gen._export_chromosome(suite, sut_uses_random=False, subject_properties=s.subject_properties)
         import os
